@@ -624,6 +624,12 @@ func TestC09Faults(t *testing.T) {
 			forAll("append", func(f Fault) { add(size, f, C09Op{Roots: roots}) })
 		}
 	}
+	// account-paid RPCs that must fail, each kind on an empty and a filled contract
+	for k := range paidFailKinds {
+		for _, size := range []int{0, 2} {
+			cases = append(cases, C09Case{Sizes: []int{size}, Ops: []C09Op{{Op: "paidfail", Len: k, Off: 5}, {Op: "paidfail", Len: k, Off: 70000}, {Op: "append", Roots: []int{9}}, {Op: "roots", Len: -1}}, ReadAll: true})
+		}
+	}
 	// uploads: every abort point of RPCWriteSector, then further uploads (other
 	// bytes), then the sectors of this case - also the one whose answer was
 	// never read - are appended, listed and EVERY listed sector is read back
